@@ -25,16 +25,16 @@ ESCAPE_CHARACTERS = ['"', "\\"]
 LINE_DELIMITERS = ["any", "lf", "cr", "crlf"]
 
 
-def make_format(delim, quote, esc, qall, line_delimiter="any", encoding=None):
-    """The cutplace DataFormat for a concrete configuration, or the InterfaceError the loader raises."""
+def make_format(delim, quote, esc, qall, line_delimiter="any", encoding=None, backwards=False):
+    """The cutplace DataFormat for a concrete configuration, or the InterfaceError the loader raises.
+    backwards: the property rows in the opposite order (a CID may give them in any order)."""
     from cutplace import data, errors
     try:
         data_format = data.DataFormat("delimited")
-        data_format.set_property("item_delimiter", SPELL.get(delim, delim))
-        data_format.set_property("quote_character", quote)
-        data_format.set_property("escape_character", esc)
-        data_format.set_property("quoting", "all" if qall else "minimal")
-        data_format.set_property("line_delimiter", line_delimiter)
+        settings = [("item_delimiter", SPELL.get(delim, delim)), ("quote_character", quote), ("escape_character", esc),
+                    ("quoting", "all" if qall else "minimal"), ("line_delimiter", line_delimiter)]
+        for name, value in (reversed(settings) if backwards else settings):
+            data_format.set_property(name, value)
         if encoding is not None:
             data_format.set_property("encoding", encoding)
         data_format.validate()
@@ -93,6 +93,11 @@ def _job(vec):
     what = "item delimiter %r, quote %r, escape %r, quoting %s" % (delim, quote, esc, "all" if cfg["qall"] else "minimal")
     problems = []
     machinery = []
+    # which formats the loader accepts is a function of the properties, not of the order of their rows
+    _, refusal_backwards = make_format(delim, quote, esc, cfg["qall"], vec.get("line_delimiter", "any"), backwards=True)
+    if (refusal is None) != (refusal_backwards is None):
+        problems.append("%s: the loader %s the format when the property rows come in the opposite order (%s)" % (
+            what, "refuses" if refusal is None else "accepts", refusal_backwards or refusal))
     if vec["phase"] == "rawread":
         return raw_read(vec, mapping, data_format, delim, quote, esc, what)
     if vec["phase"] == "refused":
@@ -293,7 +298,7 @@ def run(tier, report):
                     continue
                 for fmt_args in ((",", '"', '"', False), (",", '"', '"', True), ("\t", "'", "\\", False)):
                     data_format, _ = make_format(*fmt_args, encoding=encoding)
-                    table = [[first, "note"], ["1", first]]
+                    table = [[first, "note"], ["1", first], ["x\r\ny", "p\rq"], ["\r", "a\nb"]]
                     path = os.path.join(folder, "table.csv")
                     report.replayed += 1
                     try:
